@@ -299,6 +299,12 @@ def create_request(c):
 def prepare_pdu(c):
     """frag_len is patched to the PDU size; with authentication exactly [24, 24+len(stub)) is handed to the security
     context as the data buffer, header = first 24 bytes, trailer = the 8 bytes after the stub."""
+    if not c.verifying:
+        wire = c.fresh(T.bytes(max_len=0xFFFF), "wire")
+        c.effect(lambda: c.ctx.event("prepare_pdu", pdu=c.param("pdu"), encrypt_offsets=c.param("encrypt_offsets"), wire=wire, client=c.param("self")))
+        c.raises_only(set())
+        c.returns(wire)
+        return
     self_ = c.param("self", client_kind())
     auth = self_.fields["_auth"]
     # a request as produced by _create_request (any stub, any trailer token size)
@@ -369,6 +375,19 @@ def process_response(c):
     """C16: on an authenticated connection with a sealed request, a normal return hands back the plaintext that
     unwrap() produced for a partition header | body | trailer | signature of the WHOLE reply; a reply without a
     security trailer is rejected. C15: BindNak / Fault / any other type than the expected one is an error."""
+    if not c.verifying:
+        # callers (C14, C15): the processed reply is some PDU of the expected type, or an error
+        resp_type = c.param("resp_type")
+        c.effect(lambda: c.ctx.event("process_response", response=c.param("response"), pdu_header=c.param("pdu_header"), resp_type=resp_type,
+                                     encrypt_offsets=c.param("encrypt_offsets"), client=c.param("self")))
+        c.raises("ValueError", when=None)
+        c.raises("KeyError", when=None)
+        c.raises("IndexError", when=None)
+        c.raises("spnego.exceptions.SpnegoError", when=None)
+        from .c_rpc import reply_object
+
+        c.returns(reply_object(c, resp_type.cls.name))
+        return
     self_ = c.param("self", ClientKind("any"))
     auth = self_.fields["_auth"]
     resp, rope, hdr, frag_len, auth_len = reply_setup(c, self_)
@@ -446,3 +465,223 @@ def process_get_key_result(c):
     else:
         r = c.param("response")
         c.inline_instead()
+
+
+# ================================================================================================ C14: reassembly under any segmentation
+# Ghost model of the peer (A-NET): the bytes it will deliver are one opaque string STREAM followed by EOF; `cur` is how
+# much has been consumed. recv_into(view) delivers ANY 1..min(len(view), remaining) bytes, and 0 only at EOF;
+# readexactly(n) delivers exactly n bytes or raises IncompleteReadError. Proving the caller against these
+# nondeterministic contracts proves it for every segmentation and every EOF point.
+STREAM = z3.Const("STREAM", Bytes)
+REG.extern_exceptions["asyncio.IncompleteReadError"] = ["EOFError", "Exception", "BaseException", "object"]
+
+
+def stream_init(c):
+    c.assume(z3.And(blen(STREAM) >= 0, blen(STREAM) <= 2**63 - 1))
+    c.ctx.ghost["cur"] = 0
+
+
+def stream_slice(a, b):
+    return SBytes(R.Rope([R.Atom(STREAM, a, b)]))
+
+
+@REG.extern_method("socket.recv_into")
+def _recv_into_ext(I, ref, args, kw):
+    from pyvc.values import SView
+
+    view = args[0]
+    if not isinstance(view, SView):
+        raise OutOfReach("recv_into on something that is not a view of a bytearray")
+    n = I.bytes_len(view)
+    cur = I.ctx.ghost["cur"]
+    left = blen(STREAM) - Z(cur)
+    k = fresh_int("recv_k")
+    I.ctx.assume(z3.And(k >= 0, k <= Z(n), k <= left, z3.Implies(z3.And(left > 0, Z(n) > 0), k >= 1)))
+    I.ctx.event("recv_into", n=n, k=k)
+    I.setslice(view, 0, k, stream_slice(cur, Z(cur) + k))
+    I.ctx.ghost["cur"] = Z(cur) + k
+    return k
+
+
+@REG.extern_method("socket.recv")
+def _recv_ext(I, ref, args, kw):
+    """recv(n): any 1..min(n, remaining) bytes, or b"" at EOF"""
+    n = I.as_int(args[0])
+    if len(args) > 1 or kw:
+        raise OutOfReach("recv with flags")
+    cur = I.ctx.ghost["cur"]
+    left = blen(STREAM) - Z(cur)
+    k = fresh_int("recv_k")
+    I.ctx.assume(z3.And(k >= 0, k <= Z(n), k <= left, z3.Implies(z3.And(left > 0, Z(n) > 0), k >= 1)))
+    I.ctx.event("recv", n=n, k=k)
+    I.ctx.ghost["cur"] = Z(cur) + k
+    return stream_slice(cur, Z(cur) + k)
+
+
+@REG.extern_method("socket.sendall")
+def _sendall(I, ref, args, kw):
+    I.ctx.event("send", data=args[0])
+    return None
+
+
+@REG.extern_method("StreamWriter.write")
+def _sw_write(I, ref, args, kw):
+    I.ctx.event("send", data=args[0])
+    return None
+
+
+@REG.extern_method("StreamWriter.drain")
+def _sw_drain(I, ref, args, kw):
+    from pyvc.values import Coro
+
+    return Coro(None)
+
+
+@REG.extern_method("StreamReader.readexactly")
+def _readexactly(I, ref, args, kw):
+    from pyvc.values import Coro
+
+    n = I.as_int(args[0])
+    if I.branch(Z(n) < 0):
+        I.raise_("ValueError")
+    cur = I.ctx.ghost["cur"]
+    if I.branch(blen(STREAM) - Z(cur) < Z(n)):
+        I.raise_("asyncio.IncompleteReadError")
+    I.ctx.ghost["cur"] = Z(cur) + Z(n)
+    I.ctx.event("readexactly", n=n)
+    return Coro(stream_slice(cur, Z(cur) + Z(n)))
+
+
+def _fresh_len(I_, n):
+    tt = fresh_bytes("buffer_now")
+    I_.ctx.assume(blen(tt) == Z(n))
+    return tt
+
+
+def sync_client(auth="any"):
+    return ClientKind(auth, "SyncRpcClient", {"_sock": T.ref("socket")})
+
+
+def async_client(auth="any"):
+    return ClientKind(auth, "AsyncRpcClient", {"_reader": T.ref("StreamReader"), "_writer": T.ref("StreamWriter")})
+
+
+@REG.contract("dpapi_ng._rpc._client.SyncRpcClient._recv_into", props=["C14"])
+def recv_into(c):
+    """Fills the whole view with the next len(view) stream bytes whatever the chunking, or raises ConnectionError
+    when the stream ends first; the loop variant (bytes still missing) gives termination."""
+    from pyvc.values import SView
+
+    self_ = c.param("self", sync_client())
+    if c.verifying:
+        stream_init(c)
+        cur0 = c.fresh(T.int(0), "cur0")
+        c.assume(cur0 <= blen(STREAM))
+        c.ctx.ghost["cur"] = cur0
+        buf = c.fresh(T.bytes(kind="bytearray", max_len=0xFFFF), "buffer")
+        a = c.fresh(T.int(0), "view_start")
+        c.assume(Z(a) <= Z(c.len(buf)))
+        view = SView(buf, a, c.len(buf))
+        c.param("view", T.const(view))
+        before = R.Rope(buf.rope.segs)
+        total = c.len(buf)
+    else:
+        view = c.param("view")
+        if not isinstance(view, SView):
+            c.inline_instead()
+        buf, a = view.base, view.start
+        cur0 = c.ctx.ghost["cur"]
+        before = R.Rope(buf.rope.segs)
+        total = buf.rope.length()
+    want = Z(view.stop) - Z(a)
+    short = blen(STREAM) - Z(cur0) < want
+    c.raises("ConnectionError", when=short)
+    c.raises_only({"ConnectionError"})
+
+    def filled():
+        got = SBytes(R.py_slice(c.ctx, buf.rope, a, view.stop))
+        keep = SBytes(R.py_slice(c.ctx, buf.rope, 0, a))
+        return [c.eq(got, stream_slice(cur0, Z(cur0) + want)), c.eq(keep, SBytes(R.py_slice(c.ctx, before, 0, a))), Z(c.ctx.ghost["cur"]) == Z(cur0) + want,
+                Z(buf.rope.length()) == Z(total)]
+
+    if c.verifying:
+        c.post("view-holds-the-next-bytes-of-the-stream", filled)
+
+        def havoc_buffer(I_, s):
+            t = fresh_bytes("buffer_now")
+            I_.ctx.assume(blen(t) == Z(total))
+            buf.rope = R.Rope([R.full_atom(t)])
+
+        def inv(s):
+            done = Z(s.view.start) - Z(a)
+            return [
+                s.view.base is buf, Z(s.view.stop) == Z(view.stop), Z(s.view.start) >= Z(a), Z(s.view.start) <= Z(view.stop),
+                Z(s.cur) == Z(cur0) + done, Z(s.cur) <= blen(STREAM), Z(buf.rope.length()) == Z(total),
+                c.eq(SBytes(R.py_slice(c.ctx, buf.rope, a, s.view.start)), stream_slice(cur0, Z(cur0) + done)),
+                c.eq(SBytes(R.py_slice(c.ctx, buf.rope, 0, a)), SBytes(R.py_slice(c.ctx, before, 0, a))),
+            ]
+
+        c.loop(0, invariant=inv, variant=lambda s: Z(s.view.stop) - Z(s.view.start), havoc_heap=[havoc_buffer], ghost=("ticks", "copied", "kdf_calls", "cur"))
+    else:
+        def eff():
+            left, rest = R.split_at(c.ctx, buf.rope, a)
+            _, right = R.split_at(c.ctx, rest, want)
+            buf.rope = left + R.Rope([R.Atom(STREAM, cur0, Z(cur0) + want)]) + right
+            c.ctx.ghost["cur"] = Z(cur0) + want
+
+        c.effect(eff)
+
+
+def _send_pdu_contract(flavour):
+    def spec(c):
+        """The reply handed to _process_response is STREAM[:frag_len] with frag_len = LE16(STREAM[8:10]) and the header
+        object decoded from STREAM[:16] - whatever the segmentation; a stream that ends early is an error."""
+        from pyvc.values import ClassRef
+
+        self_ = c.param("self", sync_client() if flavour == "sync" else async_client())
+        pdu = SObj(cls(c, "Request"), {})
+        c.param("pdu", T.const(pdu))
+        c.param("resp_type", T.const(ClassRef(cls(c, ["Response", "BindAck", "AlterContextResponse"][c.ctx.choose(3, "resp_type")]))))
+        offs = None if c.ctx.branch(z3.Bool("no_offsets")) else (24, 24 + Z(c.fresh(T.int(0, 0xFFFF), "stub_len")))
+        c.param("encrypt_offsets", T.const(offs))
+        stream_init(c)
+        L = blen(STREAM)
+        F = R.to_int(c.ctx, R.Rope([R.Atom(STREAM, 8, 10)]), "little")
+        eof = "ConnectionError" if flavour == "sync" else "asyncio.IncompleteReadError"
+        c.raises(eof, when=z3.Or(L < 16, L < Z(F)), label="optional")
+        c.raises("ValueError", when=None)
+        c.raises("KeyError", when=None)
+        c.raises("IndexError", when=None)
+        c.raises("spnego.exceptions.SpnegoError", when=None)
+        c.raises_only({eof, "ValueError", "KeyError", "IndexError", "spnego.exceptions.SpnegoError"})
+        c.expect_cover("exit.raise." + eof)
+
+        def reassembled():
+            tr = c.ctx.trace
+            ev = [d for k, d in tr if k == "process_response"]
+            snd = [i for i, (k, d) in enumerate(tr) if k == "send"]
+            rcv = [i for i, (k, d) in enumerate(tr) if k in ("recv_into", "readexactly")]
+            prep = [d for k, d in tr if k == "prepare_pdu"]
+            if len(ev) != 1 or len(snd) != 1 or len(prep) != 1:
+                return False
+            d = ev[0]
+            hdr = c.I.call_repo(c.I.P.find_func("dpapi_ng._rpc._pdu.PDUHeader.unpack"), [ClassRef(cls(c, "PDUHeader")), stream_slice(0, 16)], {}, force_inline=True)
+            return [
+                c.eq(d["response"], stream_slice(0, Z(F))), Z(F) >= 16, L >= Z(F),
+                c.eq(d["pdu_header"], hdr), d["encrypt_offsets"] is offs, d["client"] is self_,
+                all(i > snd[0] for i in rcv),  # the request goes out once, before anything is read
+                c.eq(tr[snd[0]][1]["data"], prep[0]["wire"]), prep[0]["pdu"] is pdu, prep[0]["encrypt_offsets"] is offs,
+            ]
+
+        c.post("decodes-exactly-the-first-fragment-of-the-stream-independently-of-segmentation", reassembled)
+        if flavour == "sync":
+            # annotation for a receive loop written inline in _send_pdu (the shape of the code before the read-exactly
+            # helper existed): the bytes still missing must strictly decrease
+            c.loop(0, invariant=lambda s: [Z(s.cur) <= L, Z(s.cur) >= 0], variant=lambda s: Z(c.len(s.view)), ghost=("ticks", "copied", "kdf_calls", "cur"),
+                   havoc_heap=[lambda I_, s: setattr(s.resp, "rope", R.Rope([R.full_atom(_fresh_len(I_, s.resp.rope.length()))]))])
+
+    return spec
+
+
+REG.contract("dpapi_ng._rpc._client.SyncRpcClient._send_pdu", props=["C14"])(_send_pdu_contract("sync"))
+REG.contract("dpapi_ng._rpc._client.AsyncRpcClient._send_pdu", props=["C14"])(_send_pdu_contract("async"))
